@@ -1,8 +1,12 @@
 package main
 
 import (
+	"bytes"
 	"fmt"
 	"go/ast"
+	"go/printer"
+	"go/token"
+	"regexp"
 	"strings"
 )
 
@@ -30,6 +34,8 @@ func stmtString(s ast.Stmt) string {
 		return strings.Join(l, ", ") + " " + x.Tok.String() + " " + strings.Join(r, ", ")
 	case *ast.ExprStmt:
 		return exprString(x.X)
+	case *ast.IncDecStmt:
+		return exprString(x.X) + x.Tok.String()
 	}
 	return fmt.Sprintf("<%T>", s)
 }
@@ -60,7 +66,19 @@ func returnPaths(body []ast.Stmt, guards []string, out *[]retPath) {
 		case *ast.RangeStmt:
 			returnPaths(s.Body.List, push("range "+exprString(s.X)), out)
 		case *ast.ForStmt:
-			returnPaths(s.Body.List, push("for"), out)
+			g := "for "
+			if s.Init != nil {
+				g += stmtString(s.Init)
+			}
+			g += "; "
+			if s.Cond != nil {
+				g += exprString(s.Cond)
+			}
+			g += "; "
+			if s.Post != nil {
+				g += stmtString(s.Post)
+			}
+			returnPaths(s.Body.List, push(g), out)
 		case *ast.SwitchStmt:
 			tag := ""
 			if s.Tag != nil {
@@ -107,6 +125,7 @@ func extractValidation() string {
 		{"internal/config/v_one.go", "v1ParseConfig", "v1ParsePaths"},
 		{"internal/config/config.go", "ParseConfig", "parseConfigPaths"},
 		{"internal/config/config.go", "Parse", "overrideParsePaths"},
+		{"internal/sql/validate/param_ref.go", "ParamRef", "paramRefPaths"},
 	} {
 		_, f := parseFile(fn.file)
 		fd := findFunc(f, fn.fn)
@@ -119,6 +138,31 @@ func extractValidation() string {
 		b.WriteString("/-- return paths of " + fn.fn + " (" + fn.file + ") -/\n")
 		b.WriteString(pathsLean(fn.def, ps))
 	}
+	// small functions whose model is written by hand: the body, statement by statement, as the source has it
+	for _, fn := range []struct{ file, fn, def string }{
+		{"internal/sql/validate/param_ref.go", "ParamRef", "paramRefBody"},
+	} {
+		fset, f := parseFile(fn.file)
+		fd := findFunc(f, fn.fn)
+		var stmts []string
+		if fd == nil || fd.Body == nil {
+			untr("%s: %s not found", fn.file, fn.fn)
+		} else {
+			for _, st := range fd.Body.List {
+				stmts = append(stmts, printStmt(fset, st))
+			}
+		}
+		b.WriteString("/-- body of " + fn.fn + " (" + fn.file + "), one entry per top-level statement, blanks collapsed -/\n")
+		b.WriteString("def " + fn.def + " : List String := " + lstrs(stmts) + "\n")
+	}
 	b.WriteString("end Sqlc.Gen\n")
 	return b.String()
+}
+
+var blanksRe = regexp.MustCompile(`\s+`)
+
+func printStmt(fset *token.FileSet, st ast.Stmt) string {
+	var buf bytes.Buffer
+	printer.Fprint(&buf, fset, st)
+	return strings.TrimSpace(blanksRe.ReplaceAllString(buf.String(), " "))
 }
